@@ -15,16 +15,16 @@ from mc import explorer
 
 NEEDS_BRIDGEPOINT = False
 ASSUMPTIONS = [
-    'element universe of 3 (quick) / 4 (thorough) hashable values; operands range over every ordered subset',
+    'element universe of 3 (quick) / 5 (thorough) hashable values; operands range over every ordered subset',
     'order is claimed for add, |=, construction, removals (survivors keep their order); & | - ^ results are compared as sets',
     'equality with unordered sets, with lists holding duplicates and with non-iterables is outside the statement',
 ]
 
 PALETTES = [
-    [0, 1, 2, 3],
-    ['a', 'b', 'c', 'd'],
-    [(0,), (1,), (2,), (3,)],
-    [-1, 10 ** 20, 'x', 2.5],
+    [0, 1, 2, 3, 4],
+    ['a', 'b', 'c', 'd', 'e'],
+    [(0,), (1,), (2,), (3,), (4,)],
+    [-1, 10 ** 20, 'x', 2.5, ('t', 1)],
 ]
 OUTSIDE = 'zz-not-a-member'
 
@@ -42,6 +42,8 @@ class World(object):
 
 
 class SetModel(explorer.Model):
+    limit_s = 20.0
+
     def __init__(self, clsname, usize, seed):
         self.clsname = clsname
         self.universe = PALETTES[seed % len(PALETTES)][:usize]
@@ -355,6 +357,21 @@ class SetModel(explorer.Model):
                 bad(nm, '%s with %s %r raised %s' % (nm, kind, ovals, type(e).__name__), None, type(e).__name__)
                 continue
             ctx.distinct('outcomes', (nm, tuple(map(repr, got))))
+            # the result is a set of its own: changing it must not change the operands
+            if res is s:
+                bad(nm + '-aliased', '%s with %s %r returned the left operand itself' % (nm, kind, ovals))
+                continue
+            try:
+                res.add(OUTSIDE)
+                res.discard(got[0] if got else OUTSIDE)
+            except Exception:
+                pass
+            if lst(s) != snapshot:
+                bad(nm + '-aliased', 'changing the result of %s with %s %r changed the left operand to %r' % (nm, kind, ovals, lst(s)),
+                    repr(snapshot), repr(lst(s)))
+                s.clear()
+                s |= snapshot
+                continue
             if set(got) != exp or len(got) != len(exp) or ln != len(exp):
                 bad(nm, '%s with %s %r gives %r, expected the elements %r' % (nm, kind, ovals, got, sorted(exp, key=repr)),
                     sorted(map(repr, exp)), list(map(repr, got)))
@@ -375,7 +392,7 @@ def unit_test(model, hist, op):
 
 
 def models(ctx):
-    usize = 3 if ctx.quick else 4
+    usize = 3 if ctx.quick else 5
     return [SetModel('OrderedSet', usize, ctx.seed), SetModel('QuerySet', usize, ctx.seed)]
 
 
@@ -386,7 +403,7 @@ def run(ctx):
         total_states += res['states']
         ctx.notes[m.clsname + '_closed'] = res['closed']
         ctx.sample(dict(cls=m.clsname, state_history=sorted(res['seen'].values(), key=lambda h: (len(h), repr(h)))[-1]))
-    n_expected = len(ordered_subsets(list(range(3 if ctx.quick else 4))))
+    n_expected = len(ordered_subsets(list(range(3 if ctx.quick else 5))))
     ctx.require(total_states >= 2 * n_expected, 'fewer states than ordered subsets (%d < %d)' % (total_states, 2 * n_expected))
     ctx.require(ctx.nd('outcomes') >= 40, 'too few distinct outcomes (%d)' % ctx.nd('outcomes'))
     ctx.require(ctx.n('traces') > 1000, 'too few validated transitions')
@@ -413,7 +430,7 @@ def coverage(ctx):
              '(operation, exception or result) outcome; probes = read-only comparisons/algebra evaluated in every state '
              'against every ordered subset as OrderedSet, QuerySet, list and tuple',
         probes=ctx.n('probes'),
-        bounds=dict(universe=3 if ctx.quick else 4, classes=['OrderedSet', 'QuerySet'],
+        bounds=dict(universe=3 if ctx.quick else 5, classes=['OrderedSet', 'QuerySet'],
                     operands='every ordered subset of the universe as OrderedSet/QuerySet/list/tuple/generator/self'),
         exhaustive=bool(closed) and not ctx.caps_hit,
         explanation='breadth-first search to closure over canonical states (reference list + internal linked-list proxy)',
